@@ -1,0 +1,402 @@
+//go:build verif
+
+package runner
+
+// Verification hooks (build tag "verif"). verifEvent is called at the
+// linearization points of the scheduler (Run, runAnalyzers,
+// genericHandle) and of the cache layer (subrunner.do). It does two
+// independent things, both off unless requested via the environment:
+//
+//   - VERIF_TRACE=<file> (or VERIF_TRACE_RUNNER=<file>, which addresses
+//     only this package's hooks): append one JSON object per event to <file>.
+//     Events are ordered by "seq", an atomic counter read at the call.
+//     Call sites are placed before release-type operations (channel
+//     send, close, semaphore release, atomic decrement) and after
+//     acquire-type operations (channel receive, semaphore acquire), so
+//     that two events that are ordered by the scheduler's own
+//     synchronisation always appear in that order in the log.
+//
+//   - VERIF_YIELD_SEED=<n>: perturb the schedule at the same sites. The
+//     decision is a pure function of (seed, event, action names); it
+//     uses no shared state and therefore adds no happens-before edges
+//     (safe to combine with -race when VERIF_TRACE is unset).
+
+import (
+	"encoding/hex"
+	"encoding/json"
+	"fmt"
+	"hash/fnv"
+	"os"
+	"runtime"
+	"sort"
+	"strconv"
+	"sync"
+	"sync/atomic"
+	"time"
+
+	"honnef.co/go/tools/go/loader"
+	"honnef.co/go/tools/lintcmd/cache"
+
+	"golang.org/x/tools/go/analysis"
+)
+
+const (
+	verifRootName  = "$root"
+	verifARootName = "$aroot"
+)
+
+var (
+	verifTracing   bool
+	verifYielding  bool
+	verifYieldSeed uint64
+	verifSeq       atomic.Uint64
+	verifRun       atomic.Uint64
+	verifMu        sync.Mutex
+	verifFile      *os.File
+	// owner package of every live analyzerAction (set at "abegin", dropped at "collect")
+	verifOwner sync.Map // *analyzerAction -> string
+)
+
+func init() {
+	// VERIF_TRACE_RUNNER / VERIF_YIELD_SEED_RUNNER address this package only
+	// (other packages have verif hooks of their own that listen to
+	// VERIF_TRACE / VERIF_YIELD_SEED and would share the file).
+	p := os.Getenv("VERIF_TRACE_RUNNER")
+	if p == "" {
+		p = os.Getenv("VERIF_TRACE")
+	}
+	if p != "" {
+		f, err := os.OpenFile(p, os.O_CREATE|os.O_WRONLY|os.O_APPEND, 0o644)
+		if err != nil {
+			fmt.Fprintln(os.Stderr, "verif: cannot open trace file:", err)
+			os.Exit(3)
+		}
+		verifFile = f
+		verifTracing = true
+	}
+	s := os.Getenv("VERIF_YIELD_SEED_RUNNER")
+	if s == "" {
+		s = os.Getenv("VERIF_YIELD_SEED")
+	}
+	if s != "" {
+		n, err := strconv.ParseUint(s, 10, 64)
+		if err == nil && n != 0 {
+			verifYieldSeed = n
+			verifYielding = true
+		}
+	}
+}
+
+type verifRec struct {
+	Seq  uint64     `json:"seq"`
+	Run  uint64     `json:"run"`
+	G    uint64     `json:"g"`
+	Ev   string     `json:"ev"`
+	Pkg  string     `json:"pkg"`
+	An   string     `json:"an"`
+	TPkg string     `json:"tpkg"`
+	TAn  string     `json:"tan"`
+	Flag bool       `json:"flag"`
+	N    int        `json:"n"`
+	S    string     `json:"s"`
+	L    []string   `json:"l"`
+	LL   [][]string `json:"ll"`
+}
+
+func verifName(a action) (pkg, an string) {
+	switch a := a.(type) {
+	case *packageAction:
+		if a.Package == nil {
+			return verifRootName, ""
+		}
+		return a.Package.ID, ""
+	case *analyzerAction:
+		owner := "?"
+		if o, ok := verifOwner.Load(a); ok {
+			owner = o.(string)
+		}
+		if a.Analyzer == nil {
+			return owner, verifARootName
+		}
+		return owner, a.Analyzer.Name
+	}
+	return "?", "?"
+}
+
+func verifGoid() uint64 {
+	var buf [64]byte
+	n := runtime.Stack(buf[:], false)
+	// "goroutine 123 ["
+	var id uint64
+	for _, c := range buf[len("goroutine "):n] {
+		if c < '0' || c > '9' {
+			break
+		}
+		id = id*10 + uint64(c-'0')
+	}
+	return id
+}
+
+func verifYield(ev string, args []any) {
+	h := fnv.New64a()
+	var b [8]byte
+	for i := range b {
+		b[i] = byte(verifYieldSeed >> (8 * i))
+	}
+	h.Write(b[:])
+	h.Write([]byte(ev))
+	for _, arg := range args {
+		if a, ok := arg.(action); ok {
+			switch a := a.(type) {
+			case *packageAction:
+				if a.Package != nil {
+					h.Write([]byte(a.Package.ID))
+				}
+			case *analyzerAction:
+				if a.Analyzer != nil {
+					h.Write([]byte(a.Analyzer.Name))
+				}
+				if a.Pass != nil && a.Pass.Pkg != nil {
+					h.Write([]byte(a.Pass.Pkg.Path()))
+				}
+			}
+			h.Write([]byte{0})
+		}
+	}
+	x := h.Sum64()
+	switch x % 8 {
+	case 0, 1:
+		n := int(x>>8)%4 + 1
+		for range n {
+			runtime.Gosched()
+		}
+	case 2:
+		time.Sleep(time.Duration((x>>8)%400+20) * time.Microsecond)
+	}
+}
+
+// verifEvent records one event. The first action argument is the actor,
+// the second (if any) the target. Other arguments: bool -> flag, int ->
+// n, string/error -> s. A few events take structured arguments and are
+// handled explicitly.
+func verifEvent(ev string, args ...any) {
+	if !verifTracing {
+		if verifYielding {
+			verifYield(ev, args)
+		}
+		return
+	}
+	rec := verifRec{Ev: ev, L: []string{}, LL: [][]string{}}
+	switch ev {
+	case "run_begin":
+		// args: *Runner, root *packageAction, all map[*loader.PackageSpec]*packageAction
+		rec.Run = verifRun.Add(1)
+		rec.Seq = verifSeq.Add(1)
+		r := args[0].(*Runner)
+		root := args[1].(*packageAction)
+		all := args[2].(map[*loader.PackageSpec]*packageAction)
+		rec.Pkg = verifRootName
+		rec.N = r.semaphore.Cap()
+		rec.G = verifGoid()
+		for _, d := range root.deps {
+			rec.L = append(rec.L, d.(*packageAction).Package.ID)
+		}
+		verifWrite(&rec)
+		ids := make([]string, 0, len(all))
+		byID := map[string]*packageAction{}
+		for _, a := range all {
+			if a.Package == nil {
+				continue
+			}
+			ids = append(ids, a.Package.ID)
+			byID[a.Package.ID] = a
+		}
+		sort.Strings(ids)
+		for _, id := range ids {
+			a := byID[id]
+			n := verifRec{Ev: "node", Run: rec.Run, Seq: verifSeq.Add(1), G: rec.G, Pkg: id, Flag: a.failed, N: len(a.errors), L: []string{}, LL: [][]string{}}
+			if !a.factsOnly {
+				n.S = "initial"
+			}
+			for _, d := range a.deps {
+				n.L = append(n.L, d.(*packageAction).Package.ID)
+			}
+			verifWrite(&n)
+		}
+		return
+	case "analyzers":
+		// args: *subrunner
+		sr := args[0].(*subrunner)
+		g := verifGoid()
+		isFact := map[*analysis.Analyzer]bool{}
+		for _, a := range sr.factAnalyzers {
+			isFact[a] = true
+		}
+		for _, a := range sr.analyzers {
+			n := verifRec{Ev: "anode", Run: verifRun.Load(), Seq: verifSeq.Add(1), G: g, An: a.Name, Flag: isFact[a], L: []string{}, LL: [][]string{}}
+			for _, d := range a.Requires {
+				n.L = append(n.L, d.Name)
+			}
+			verifWrite(&n)
+		}
+		return
+	case "abegin":
+		// args: pkgAct *packageAction, root *analyzerAction, all map[*analysis.Analyzer]*analyzerAction
+		pa := args[0].(*packageAction)
+		root := args[1].(*analyzerAction)
+		all := args[2].(map[*analysis.Analyzer]*analyzerAction)
+		verifOwner.Store(root, pa.Package.ID)
+		for _, a := range all {
+			verifOwner.Store(a, pa.Package.ID)
+		}
+		rec.Pkg = pa.Package.ID
+		rec.N = len(all)
+		rec.Flag = pa.factsOnly
+		for _, d := range root.deps {
+			rec.L = append(rec.L, d.(*analyzerAction).Analyzer.Name)
+		}
+	case "collect":
+		// args: pkgAct, root *analyzerAction, all map, diags []Diagnostic
+		pa := args[0].(*packageAction)
+		root := args[1].(*analyzerAction)
+		all := args[2].(map[*analysis.Analyzer]*analyzerAction)
+		diags := args[3].([]Diagnostic)
+		rec.Pkg = pa.Package.ID
+		rec.N = len(diags)
+		// ll: run-length encoded sequence of the categories of the collected
+		// diagnostics; l: the same for the concatenation of the root
+		// analyzers' own diagnostics in root.deps order (what the result
+		// must be).
+		rle := func(cats []string) []string {
+			var out []string
+			var cnt []int
+			for _, c := range cats {
+				if k := len(out); k > 0 && out[k-1] == c {
+					cnt[k-1]++
+				} else {
+					out = append(out, c)
+					cnt = append(cnt, 1)
+				}
+			}
+			for i := range out {
+				out[i] += "=" + strconv.Itoa(cnt[i])
+			}
+			return out
+		}
+		var got, want []string
+		for _, d := range diags {
+			got = append(got, d.Category)
+		}
+		for _, d := range root.deps {
+			for _, dd := range d.(*analyzerAction).Diagnostics {
+				want = append(want, dd.Category)
+			}
+		}
+		rec.L = append(rec.L, rle(want)...)
+		rec.LL = append(rec.LL, rle(got))
+		defer func() {
+			verifOwner.Delete(root)
+			for _, a := range all {
+				verifOwner.Delete(a)
+			}
+		}()
+	case "key":
+		// args: pkgAct, hashCfg config.Config, analyzerNames string, goVersion string
+		pa := args[0].(*packageAction)
+		rec.Pkg = pa.Package.ID
+		rec.S = hex.EncodeToString(pa.hash[:])
+		rec.Flag = pa.factsOnly
+		rec.L = []string{
+			pa.Package.PkgPath,
+			fmt.Sprintf("%#v", args[1]),
+			hex.EncodeToString(pa.Package.Hash[:]),
+			args[2].(string),
+			args[3].(string),
+			os.Getenv("GODEBUG"),
+		}
+	case "keydep":
+		// args: pkgAct, dep *packageAction, vetxHash [cache.HashSize]byte
+		pa := args[0].(*packageAction)
+		dep := args[1].(*packageAction)
+		h := args[2].([cache.HashSize]byte)
+		rec.Pkg = pa.Package.ID
+		rec.TPkg = dep.Package.ID
+		rec.L = []string{dep.Package.PkgPath, hex.EncodeToString(h[:]), dep.vetx}
+	case "store":
+		// args: pkgAct, kind string, subkey cache.ActionID
+		pa := args[0].(*packageAction)
+		k := args[2].(cache.ActionID)
+		rec.Pkg = pa.Package.ID
+		rec.S = args[1].(string)
+		rec.L = []string{hex.EncodeToString(k[:])}
+	case "cache_end":
+		pa := args[0].(*packageAction)
+		rec.Pkg = pa.Package.ID
+		rec.Flag = pa.failed
+		rec.L = []string{pa.vetx, pa.results, pa.testData}
+	case "finalize":
+		// args: root, out []Result
+		out := args[1].([]Result)
+		rec.Pkg = verifRootName
+		rec.N = len(out)
+		for _, r := range out {
+			if r.Failed {
+				rec.L = append(rec.L, r.Package.ID)
+			}
+		}
+		sort.Strings(rec.L)
+	default:
+		first := true
+		for _, arg := range args {
+			switch v := arg.(type) {
+			case action:
+				if first {
+					rec.Pkg, rec.An = verifName(v)
+					first = false
+					switch ev {
+					case "start", "exec_end":
+						rec.Flag = v.IsFailed()
+					}
+				} else {
+					rec.TPkg, rec.TAn = verifName(v)
+				}
+			case bool:
+				if ev == "start" || ev == "rootclose" {
+					// whether the handler owns a semaphore token (goroutine) or runs inline
+					if v {
+						rec.N = 1
+					}
+				} else {
+					rec.Flag = v
+				}
+			case int:
+				rec.N = v
+			case string:
+				rec.S = v
+			case error:
+				rec.S = v.Error()
+			}
+		}
+	}
+	rec.Run = verifRun.Load()
+	rec.G = verifGoid()
+	// The sequence number is taken last, immediately before returning to
+	// the instrumented code (argument rendering above only reads state
+	// owned by the calling goroutine).
+	rec.Seq = verifSeq.Add(1)
+	verifWrite(&rec)
+	if verifYielding {
+		verifYield(ev, args)
+	}
+}
+
+func verifWrite(rec *verifRec) {
+	b, err := json.Marshal(rec)
+	if err != nil {
+		return
+	}
+	b = append(b, '\n')
+	verifMu.Lock()
+	verifFile.Write(b)
+	verifMu.Unlock()
+}
